@@ -189,6 +189,9 @@ func Render(p *Prog, s *Style) string {
 					head += s.name(x.Counter) + s.gap()
 				}
 				emit(trail(head + s.kw("for") + s.gap() + s.expr(x.Count)))
+				for _, a := range x.Asserts {
+					emit(indent + ";assert " + s.expr(a))
+				}
 				renderItems(x.Body, indent+s.opt())
 				emit(trail(indent + s.opt() + s.kw("rof")))
 			case *Instr:
